@@ -180,7 +180,9 @@ class Run:
                 y = b[0]; r = {'add': [a[0] + y, a[1], a[2]], 'sub': [a[0] - y, a[1], a[2]], 'mul': [a[0] * y, a[1] * y, a[2] * y]}[op]
             out.append(r)
         return out
-    def execute(s):
+    def execute(s, alias=None):
+        """alias: None | ('inplace', g): the output registers are the registers of input operand g (c_ == a_)
+                       | ('scalar-in-out', g, j): the by-reference scalar operand g is element j of the output array"""
         info = s.info; w = s.w; n = s.n
         A = s.build_operand('a', info['a']); B = s.build_operand('b', info['b']) if info['b'] else None
         if info['aux'] is not None:
@@ -194,6 +196,19 @@ class Run:
                 for i in range(3): o.cells[i] = FV(sums[i])
                 s.args[ax.names[0]] = Ptr(o, 0)
         s.build_operand('out', info['out'], is_out=True)
+        if alias and alias[0] == 'inplace':
+            r = info[alias[1]]; o = info['out']
+            if o.kind in ('reg', 'planar'): s.args[o.names[0]] = s.args[r.names[0]]; o.obj = r.obj
+            else:
+                for i in range(3): s.args[o.names[i]] = s.args[r.names[i]]
+                o.objs = r.objs
+        if alias and alias[0] == 'scalar-in-out':
+            g, j = alias[1], alias[2]; r = info[g]; o = info['out']; u = s.uobjs['out']
+            off = s.elem_off(o, o.sv, j, 0)
+            s.args[r.names[0]] = Ptr(u, off); s.uobjs.pop(g, None)
+            v0 = u.A0(off)
+            if g == 'a': A = [[v0] for k in range(n)]
+            else: B = [[v0] for k in range(n)]
         fn = '@' + s.m['mangled']
         f = w.funcs.get(fn)
         if f is None: raise Unsupported('function not emitted: ' + fn)
@@ -205,12 +220,26 @@ class Run:
         return A, B
 
 def fresh_idx(): return z3.BitVec('X_fresh', 64)
+ALIAS = [None]      # alias variant of the overload check in progress (read by confirm/native_run)
 
-def check_overload(ctx, m, cfg):
+def alias_variants(info):
+    """in-place uses the overload's signature allows: result registers that are also an operand; a by-reference scalar that lives in the result array"""
+    out = info['out']; vs = []
+    for g in ('a', 'b'):
+        r = info[g]
+        if r is None: continue
+        if out.kind == r.kind and out.kind in ('reg', 'planar') and not getattr(r, 'byval', False): vs.append(('inplace', g))
+        if out.kind == r.kind == 'planar3' and not getattr(r, 'byval', False) and not getattr(out, 'byval', False): vs.append(('inplace', g))
+        if out.kind == 'arr' and r.kind == 'arr' and r.const and r.dim == 1 and out.dim == 1:
+            vs += [('scalar-in-out', g, j) for j in (0, 1, info['n'] - 1)]
+    return vs
+
+def check_overload(ctx, m, cfg, alias=None):
     info = infer(m)
     sig = '%s::%s(%s)' % (m['cls'], m['name'], ', '.join('%s %s' % (t, nm) for nm, t in info['params']))
-    run = Run(ctx, m, info, cfg)
-    try: A, B = run.execute()
+    if alias: sig += ' [%s]' % {'inplace': 'result is operand %s' % alias[1], 'scalar-in-out': 'scalar operand %s is element %s of the result array' % (alias[1], alias[-1])}[alias[0]]
+    run = Run(ctx, m, info, cfg); ALIAS[0] = alias
+    try: A, B = run.execute(alias)
     except Violation as e: return viol('%s/%s' % (m['name'], e.kind), '%s [line %s]: %s' % (sig, m['line'], e.msg), replay=dict(event=str(e), mangled=m['mangled']))
     pfs = list(getattr(run.w, 'pre_failures', []))
     if pfs:
@@ -224,7 +253,7 @@ def check_overload(ctx, m, cfg):
     # -- inputs must not be written, and every read must hit a designated position
     for g in ('a', 'b'):
         r = info[g]
-        if r is None or r.kind != 'arr': continue
+        if r is None or r.kind != 'arr' or g not in run.uobjs: continue
         u = run.uobjs[g]
         if u.log: return confirm(ctx, m, info, cfg, sig, 'writes into input operand %s' % g, None)
         des = [run.elem_off(r, r.sv, k, i) for k in range(n) for i in range(r.dim)]
@@ -311,6 +340,14 @@ def confirm(ctx, m, info, cfg, sig, text, mdl, fills=()):
     """replay: arrays with distinct contents, strides from the model when small (native), sparse interpreter replay for large strides,
        operand fills from kernel-level solver witnesses, then a fixed set of small strides"""
     n = info['n']; rng = ctx.rng(m['mangled'])
+    mg = re.search(r'reads operand (\w) at a position', text)
+    if mg:
+        # a read outside the designated positions changes no value: it is confirmed by a fault when the operand ends at an inaccessible page
+        vals0 = {str(d): mdl[d].as_long() for d in mdl.decls() if z3.is_bv_value(mdl[d])} if mdl is not None else None
+        for cs in ([vals0] if vals0 else []) + [None, 'alt', 'perm']:
+            try: r = native_run(ctx, m, info, cfg, cs, rng, guard=mg.group(1))
+            except Exception as e: r = None
+            if r is not None and r[0]: return viol(m['name'], '%s [line %s]: %s; %s' % (sig, m['line'], text, r[1]), replay=r[2])
     cand = []
     if mdl is not None:
         vals = {str(d): mdl[d].as_long() for d in mdl.decls() if z3.is_bv_value(mdl[d])}
@@ -487,7 +524,22 @@ def sparse_run(ctx, m, info, cfg, cs, rng):
     return (det is not None, (det or 'agrees') + ' [interpreter, concrete, sparse arrays, strides %s]' % rep['strides'], rep)
 
 SZ = 96
-def native_run(ctx, m, info, cfg, cs, rng, fill=None):
+def guard_buf(nwords_before_guard):
+    """uint64 array whose element [nwords_before_guard - 1] is the last word before an inaccessible page (reads past the designated extent fault)"""
+    import mmap
+    libc = ctypes.CDLL(None, use_errno=True); PG = mmap.PAGESIZE
+    npages = (8 * nwords_before_guard + PG - 1) // PG + 1
+    libc.mmap.restype = ctypes.c_void_p; libc.mmap.argtypes = [ctypes.c_void_p, ctypes.c_size_t, ctypes.c_int, ctypes.c_int, ctypes.c_int, ctypes.c_long]
+    base = libc.mmap(None, (npages + 1) * PG, 3, 0x22, -1, 0)       # PROT_READ|PROT_WRITE, MAP_PRIVATE|MAP_ANONYMOUS
+    if base in (None, ctypes.c_void_p(-1).value): raise OSError('mmap failed')
+    libc.mprotect.argtypes = [ctypes.c_void_p, ctypes.c_size_t, ctypes.c_int]
+    if libc.mprotect(base + npages * PG, PG, 0) != 0: raise OSError('mprotect failed')
+    start = base + npages * PG - 8 * nwords_before_guard
+    return (ctypes.c_uint64 * nwords_before_guard).from_address(start)
+
+def native_run(ctx, m, info, cfg, cs, rng, fill=None, guard=None):
+    """guard = 'a' / 'b': that input operand is placed so that its last designated element is the last word before an inaccessible page and the
+       call runs in a forked child: a fault is a confirmed read outside the designated positions"""
     lib = core.native(ctx.bdir, cfg)
     def val(g, k=0, i=0):
         if fill and g in fill:
@@ -532,7 +584,13 @@ def native_run(ctx, m, info, cfg, cs, rng, fill=None):
             if kind == 'scalar': args[nm] = (ctypes.c_uint32 if bits == 32 else U)(st[1])
             else: lb = (U * n)(*st[1]); bufs[nm] = lb; args[nm] = lb
         if r.kind == 'arr':
-            b = mkarr(g, not is_out); args[r.names[0]] = b
+            if guard == g and not is_out:
+                D = max(off(r, st, k, i) for k in range(n) for i in range(r.dim)) + 1
+                b = guard_buf(D)
+                for i in range(D): b[i] = val(g, i // 3, i % 3)
+                bufs[g] = b; args[r.names[0]] = b
+            else:
+                b = mkarr(g, not is_out); args[r.names[0]] = b
             return [[b[off(r, st, k, i)] for i in range(r.dim)] for k in range(n)]
         if r.kind == 'bcast':
             v = val(g); args[r.names[0]] = U(v); return [[v] for k in range(n)]
@@ -552,6 +610,19 @@ def native_run(ctx, m, info, cfg, cs, rng, fill=None):
         A = operand('a', info['a']); B = operand('b', info['b']) if info['b'] else None
         operand('out', info['out'], True)
     except KeyError: return None
+    al = ALIAS[0]
+    if al and al[0] == 'inplace':
+        r = info[al[1]]; o = info['out']
+        if o.kind in ('reg', 'planar'): args[o.names[0]] = args[r.names[0]]; bufs['out'] = bufs[al[1]]
+        else:
+            for i in range(3): args[o.names[i]] = args[r.names[i]]
+            bufs['out'] = bufs[al[1]]
+    if al and al[0] == 'scalar-in-out':
+        g, j = al[1], al[2]; r = info[g]; o = info['out']; st_o = strides.get('out')
+        pos = off(o, st_o, j, 0); ob_ = bufs['out']; v0 = val(g) % P; ob_[pos] = v0
+        args[r.names[0]] = ctypes.cast(ctypes.byref(ob_, 8 * pos), ctypes.POINTER(ctypes.c_uint64))
+        if g == 'a': A = [[v0] for k in range(n)]
+        else: B = [[v0] for k in range(n)]
     if info['aux'] is not None:
         ax = info['aux']
         if ax.kind == 'planar3':
@@ -575,6 +646,12 @@ def native_run(ctx, m, info, cfg, cs, rng, fill=None):
             for i in range(len(v)):
                 c = o.cells.get(i)
                 if is_c(c): v[i] = c
+    elif guard is not None:
+        f = getattr(lib, m['mangled']); f.restype = None
+        res = core.forked(lambda: (f(*[args[nm] for nm, ty in info['params']]), 0)[1], timeout=30)
+        rep = dict(mangled=m['mangled'], cfg=cfg, guard=guard, strides={k: (v if v is None else [v[0], v[1]]) for k, v in strides.items()})
+        if res[0] == 'signal': return True, 'native call with operand %s ending at an inaccessible page (strides %s) is killed by signal %d: it reads past the last designated element' % (guard, strides.get(guard), res[1]), rep
+        return False, 'no fault', rep
     else:
         f = getattr(lib, m['mangled']); f.restype = None
         f(*[args[nm] for nm, ty in info['params']])
@@ -615,4 +692,8 @@ def obligations_for(ctx, cls):
         except Unsupported as e:
             UNCOVERED.append(dict(overload='%s::%s' % (m['cls'], m['name']), line=m['line'], reason=str(e))); continue
         obs.append(Ob('%s@%s' % (m['name'], m['line']), check_overload, (m, cfg), weight=3 if 'mul' in m['name'] else 1))
+        try: avs = alias_variants(infer(m))
+        except Unsupported: avs = []
+        for av in avs:
+            obs.append(Ob('%s@%s/%s' % (m['name'], m['line'], '-'.join(str(x) for x in av)), check_overload, (m, cfg, av), weight=3 if 'mul' in m['name'] else 1))
     return obs, ms
